@@ -41,6 +41,8 @@ fn run(args: &[String]) -> i32 {
             props::replay(path)
         }
         Some("--serve") => props::c16::serve(),
+        Some("c13-survey") => props::c13::survey(),
+        Some("c13-probe") => props::c13::probe(args[2].parse().unwrap(), args[3].parse().unwrap(), &args[4]),
         Some("c15-scan") => {
             // complete scan of one unary C15 function: prints every input whose error exceeds the bound
             props::c15::scan(args.get(2).map(|s| s.as_str()).unwrap_or("tan"))
